@@ -7,6 +7,8 @@ import (
 	"net/url"
 	"regexp"
 	"text/template"
+	"unicode"
+	"unicode/utf16"
 	"unicode/utf8"
 
 	"github.com/robfig/soy/data"
@@ -135,7 +137,24 @@ func directiveEscapeUri(value data.Value, _ []data.Value) data.Value {
 }
 
 func directiveEscapeJsString(value data.Value, _ []data.Value) data.Value {
-	return data.String(template.JSEscapeString(value.String()))
+	// template.JSEscape, except that an unprintable character outside the basic
+	// multilingual plane is written as a surrogate pair (a "\u" escape takes
+	// exactly four digits).
+	var (
+		str  = value.String()
+		buf  bytes.Buffer
+		last = 0
+	)
+	for i, r := range str {
+		if r > 0xFFFF && !unicode.IsPrint(r) {
+			template.JSEscape(&buf, []byte(str[last:i]))
+			var r1, r2 = utf16.EncodeRune(r)
+			fmt.Fprintf(&buf, "\\u%04X\\u%04X", r1, r2)
+			last = i + utf8.RuneLen(r)
+		}
+	}
+	template.JSEscape(&buf, []byte(str[last:]))
+	return data.String(buf.String())
 }
 
 func directiveJson(value data.Value, _ []data.Value) data.Value {
